@@ -225,6 +225,21 @@ def programs():
     if sorted(res) != sorted(PROGRAM_CLASSES): raise Untranslatable("missing __new__: " + str(sorted(res)))
     return res
 
+def memo_helpers():
+    """the memoised arithmetic helpers in front of the interning constructors: [(class, function, decorated with lru_cache,
+    every return is a call of an interning constructor)]"""
+    tree = ast.parse(open(os.path.join(SRC, "__init__.py")).read())
+    out = []
+    for cls in tree.body:
+        if isinstance(cls, ast.ClassDef) and cls.name in ("Dimension", "Unit"):
+            for fn in cls.body:
+                if isinstance(fn, ast.FunctionDef) and fn.name in ("_multiply", "_divide"):
+                    deco = any("lru_cache" in ast.unparse(d) for d in fn.decorator_list)
+                    rets = [n for n in ast.walk(fn) if isinstance(n, ast.Return)]
+                    ok = bool(rets) and all(isinstance(r.value, ast.Call) and isinstance(r.value.func, ast.Name) and r.value.func.id in PROGRAM_CLASSES for r in rets)
+                    out.append([cls.name, fn.name, deco, ok])
+    return out
+
 def coq_programs(pr):
     lines = ["From Coq Require Import List Bool. Import ListNotations.", "From Measured Require Import Model.NewProg.", ""]
     for c in PROGRAM_CLASSES:
